@@ -1,4 +1,5 @@
 """C17 - re-enabled opcodes (DESIGN.md section 4, C17)."""
+import os
 from .. import astq, structure as S
 from ..facts import AnalysisBroken, walk
 
@@ -332,3 +333,18 @@ MUTANTS = [
     dict(name="nested-switch-loses-MOD", file="debugger/interpreter.cpp", find="            case OP_MOD:\n                if (num2 == 0) return set_error(serror, SCRIPT_ERR_UNKNOWN_ERROR);\n                num1 = num1 % num2;\n                break;\n", replace="",
          expect=["R17.2:StepExtended:nested-switch"]),
 ]
+
+
+def AUTO_MUTANTS(ctx):
+    """drop each opcode, one at a time, from the gate and from the dispatcher group"""
+    import re as _re
+    out = []
+    src = open(os.path.join(ctx.facts.repo, "script/interpreter.cpp")).read()
+    for op in ctx.extra.get("gate_labels", []):
+        pat = "                opcode == %s ||\n" % op
+        if src.count(pat) == 1:
+            out.append(dict(name="auto:gate-drops-%s" % op, file="script/interpreter.cpp", find=pat, replace="", expect=["R17.1:opcode=%s" % op]))
+        pat2 = "                case %s:\n" % op
+        if src.count(pat2) == 1:
+            out.append(dict(name="auto:dispatch-drops-%s" % op, file="script/interpreter.cpp", find=pat2, replace="", expect=["R17.1:opcode=%s" % op]))
+    return out
